@@ -15,7 +15,7 @@ SEARCH_NOTE = ('thermal evaluation replaced by free symbolic (maxEFT, minEFT) pe
 CLAIMED = {
     'C01': ('Bounded proof over all sign/magnitude patterns of the abstract temperatures, all height windows, caps and policies, for the '
             'listed candidate lists: after find_design the (field, height) left in the GHE object has excess <= 1e-3 K unless an unmet escape '
-            'was taken. Covers every load/soil/pipe/fluid because each only selects one temperature table.', SEARCH_NOTE, '3/C01', None),
+            'was taken. Covers every load/soil/pipe/fluid because each only selects one temperature table. limits_chain_* units: the limits, height window, cap, horizon and continue flag given to set_simulation_parameters reach the search constructor of each of the six design methods unchanged and BaseGHE.cost measures against them.', SEARCH_NOTE, '3/C01', None),
     'C02': ('Same runs: final height within [min,max]; count <= max_boreholes; Search failed only when the user did not ask to continue and no '
             'allowed candidate fits; continued runs return largest@max / smallest@min; any non-ValueError exception escaping is a violation '
             '(found and fixed: RowWise TypeError); the cap also in the nested searches (capped bi-rectangle / bi-zoned units).', SEARCH_NOTE, '3/C02', None),
